@@ -224,7 +224,7 @@ def check_path_algebra(tier, out):
     for p in [r for r in rel if r and not r.startswith("/")]:
         bases.append(p)
     bases.append("")
-    texts = ("a", "b.c", "é", "a b", "%", "%2F", "x.tar.gz", ".hid", "a.", "+", ":", "a:b", "?", "#")
+    texts = ("a", "b.c", "é", "a b", "%", "%2F", "x.tar.gz", ".hid", "a.", "+", ":", "a:b", "?", "#", "123", "\u0661\u0662\u0663", "\xb2")
     multi = ("a/b", "a/", "a//b", "é/b.c")
     dots = (".", "..", "a/..", "../a", "./a", "..//a", "a/../..", "a/./", "../..")
     from yarl._quoters import PATH_QUOTER
@@ -285,6 +285,8 @@ def check_path_algebra(tier, out):
             j = u.joinpath(s)
             if c != j or str(c) != str(j):
                 out.fail("u / s != u.joinpath(s)", inp, str(c), str(j))
+            if not str(c).isascii():
+                out.fail("the string form of u / s is not ASCII (C01)", inp, str(c), "ASCII")
             if u.host is not None:
                 # under an authority the child's path is the directory of u, the quoted text, and
                 # RFC 3986 5.2.4 applied to the whole (C15)
@@ -632,6 +634,22 @@ def check_human_repr(tier, out):
                     out.fail("IDN host is not shown decoded", inp, h, host)
                 if out.full:
                     return
+    # whole queries: several pairs, repeated keys, blank keys / values, order
+    for pairs in ([("a", "1"), ("a", "2")], [("a", "2"), ("b", "x"), ("a", "1")], [("k", ""), ("k", "v"), ("", "v")],
+                  [("é", "я"), ("é", "&"), ("é", "=")], [("a b", "c d"), ("a b", "+"), ("a b", ";")], [("x", "1")] * 3 + [("x", "2")]):
+        if not out.mine():
+            continue
+        u = URL.build(scheme="http", host="example.com", path="/p").with_query(pairs)
+        inp = {"with_query": pairs}
+        try:
+            h = u.human_repr()
+            back = URL(h)
+        except Exception as e:  # noqa: BLE001
+            out.fail("human_repr round trip raised", inp, f"{type(e).__name__}: {e}", str(u))
+            continue
+        out.note(h != str(u), {"with_query": pairs, "human_repr": h, "str": str(u)})
+        if back != u or list(back.query.items()) != pairs:
+            out.fail("URL(u.human_repr()) != u (query pairs)", inp, (h, list(back.query.items())), pairs)
 
 
 # =============================================================== C03: canonical string is a fixed point
@@ -839,6 +857,10 @@ def _pairs(u):
     return [(k, v) for k, v in u.query.items()]
 
 
+class _Text(str):
+    """a str subclass (the library takes the subclass route of query_var for it)"""
+
+
 def _expand(q):
     """pairs denoted by a mapping / sequence argument (list or tuple values repeat the key; numbers by str())"""
     items = q.items() if hasattr(q, "items") else q
@@ -885,7 +907,11 @@ def check_query_algebra(tier, out):
                     continue
                 out.note(bool(ex_pairs), {"existing": ex_pairs, "key": k, "value": v})
                 forms = (("dict", {k: v}), ("pairs", [(k, v)]), ("MultiDict", MultiDict([(k, v), (k, "2")])),
-                         ("dict-list", {k: [v, "2"]}), ("dict-int", {k: 7}), ("dict-float", {k: 1.5}))
+                         ("dict-list", {k: [v, "2"]}), ("dict-int", {k: 7}), ("dict-float", {k: 1.5}),
+                         # values whose text is produced by the library (str() of a number, a str subclass):
+                         # it is quoted like any other text ('+' of an exponent must not read back as a space)
+                         ("dict-float-exponent", {k: 1e+20}), ("pairs-float-exponent", [(k, 1e+20)]),
+                         ("pairs-str-subclass", [(k, _Text(v))]), ("dict-str-subclass", {k: [_Text(v)]}))
                 for fname, q in forms:
                     inp = {"existing": ex_pairs, "form": fname, "query": repr(q)}
                     snapshot = copy.deepcopy(q)
@@ -905,6 +931,8 @@ def check_query_algebra(tier, out):
                         out.fail("update_query(q) does not replace exactly q's keys and keep the other pairs in order", inp, _pairs(up),
                                  {"kept": [(a, b) for a, b in ex_pairs if a not in {x for x, _ in want_new}], "new": want_new})
                     for r in (w, e, up):
+                        if not str(r).isascii() or any(ch in r.raw_query_string for ch in ' "<>#`{}|\\^'):
+                            out.fail("the query of the result is not well-formed ASCII (C01)", inp, r.raw_query_string, "quoted text")
                         if (r.scheme, r.raw_authority, r.raw_path, r.raw_fragment) != (u.scheme, u.raw_authority, u.raw_path, u.raw_fragment):
                             out.fail("a query operation changed another component", inp, str(r), str(u))
                 # kwargs form
@@ -1107,9 +1135,186 @@ def _build_case(URL, args, out):
             out.fail("build(port=p): the explicit port is not p (C17)", inp, (u.explicit_port, str(u)), want)
 
 
+# =============================================================== C10 / C08: coherence across construction routes
+
+_SLOTS = ("_scheme", "_netloc", "_path", "_query", "_fragment")
+
+
+def _cold(u):
+    """a URL with the same five stored parts and an empty memo: every accessor computes lazily"""
+    c = object.__new__(type(u))
+    for sl in _SLOTS:
+        setattr(c, sl, getattr(u, sl))
+    c._cache = {}
+    return c
+
+
+def _same_value(a, b):
+    if type(a) is not type(b):
+        return False
+    if type(a).__name__ == "URL":
+        return all(getattr(a, sl) == getattr(b, sl) for sl in _SLOTS)
+    try:
+        return a == b and repr(a) == repr(b)
+    except Exception:  # noqa: BLE001
+        return False
+
+
+def _memo_coherent(u, inp, out, when):
+    """every entry of the per-object memo equals what the accessor computes from the stored parts"""
+    c = _cold(u)
+    for k, v in list(u._cache.items()):
+        try:
+            want = hash(c) if k == "hash" else getattr(c, k)
+        except AttributeError:
+            out.fail(f"memo entry without an accessor ({when})", inp, k, "a memoised accessor name")
+            continue
+        except Exception as e:  # noqa: BLE001
+            out.fail(f"memo entry present where the accessor raises ({when})", inp, (k, v), f"{type(e).__name__}")
+            continue
+        if not _same_value(v, want):
+            cls = None
+            if k in ("raw_host", "host") and u._netloc == "" and v == "" and want is None:
+                cls = "C09-vanishing-authority"
+            out.fail(f"memo entry {k!r} differs from the lazily computed value ({when})", dict(inp, key=k), v, want, cls)
+
+
+def _observe(u):
+    for nm in ("scheme", "raw_authority", "authority", "raw_user", "user", "raw_password", "password", "raw_host", "host",
+               "host_subcomponent", "host_port_subcomponent", "port", "explicit_port", "raw_path", "path", "path_safe",
+               "raw_query_string", "query_string", "path_qs", "raw_path_qs", "raw_fragment", "fragment", "raw_parts", "parts",
+               "parent", "raw_name", "name", "raw_suffix", "suffix", "raw_suffixes", "suffixes", "query", "absolute"):
+        try:
+            getattr(u, nm)
+        except (ValueError, TypeError):
+            pass
+    try:
+        u.origin()
+    except ValueError:
+        pass
+    hash(u), str(u), repr(u), u.human_repr(), u.is_default_port(), u.is_absolute(), u < u, u == u
+    pickle.dumps(u)
+
+
+def _norm5(u):
+    p = u._path
+    if not p and u._netloc:
+        p = "/"
+    return (u._scheme, u._netloc, p, u._query, u._fragment)
+
+
+def coherence_strings():
+    for scheme in ("http", "https", "", "x"):
+        for auth in (None, "h", "h:80", "h:443", "h:8080", "u@h", "H"):
+            for path in ("", "/", "/a", "/A", "/a/", "/a/b"):
+                for q in ("", "?a=1", "?a=0"):
+                    for f in ("", "#f"):
+                        if auth is None:
+                            if scheme in ("http", "https"):
+                                continue
+                            yield (scheme + ":" if scheme else "") + path + q + f, (scheme, "", path, q[1:], f[1:])
+                        else:
+                            yield (scheme + ":" if scheme else "") + "//" + auth + path + q + f, (scheme, auth, path, q[1:], f[1:])
+
+
+def _routes(URL, s, parts):
+    """the same text through every construction route (those that reject it are left out)"""
+    scheme, auth, path, q, f = parts
+    res = []
+
+    def add(name, fn):
+        try:
+            res.append((name, fn()))
+        except (ValueError, TypeError):
+            pass
+    add("URL(s)", lambda: URL(s))
+    add("URL(s, encoded=True)", lambda: URL(s, encoded=True))
+    add("pickle round trip of URL(s)", lambda: pickle.loads(pickle.dumps(URL(s))))
+    add("URL.build(authority=...)", lambda: URL.build(scheme=scheme, authority=auth, path=path, query_string=q, fragment=f))
+    add("URL.build(..., encoded=True)", lambda: URL.build(scheme=scheme, authority=auth, path=path, query_string=q, fragment=f, encoded=True))
+    add("URL(s).with_fragment(same)", lambda: URL(s).with_fragment(f or None))
+    add("URL(s).with_query(same)", lambda: URL(s).with_query(q or None))
+    add("URL(s).with_path(same, keep_query=True, keep_fragment=True)", lambda: URL(s).with_path(path, keep_query=True, keep_fragment=True))
+    return res
+
+
+def check_coherence(tier, out):
+    """C10: == is equality of the five parts with '' == '/' under an authority, equal URLs hash alike,
+    exactly one of <, ==, > holds and <=, >= agree with them -- for URLs that reach the same or nearly
+    the same value through different construction routes.  C08: every memo entry a construction route
+    or a modifier leaves behind (on a cold and on a fully observed source) equals the lazily computed
+    value, and observation changes no stored part."""
+    from yarl import URL
+    corpus = list(coherence_strings())
+    right = {}       # scheme -> [(text, object)] the right-hand operands (two routes per string)
+    for s, parts in corpus:
+        for name, fn in (("URL(s)", lambda: URL(s)), ("URL(s, encoded=True)", lambda: URL(s, encoded=True))):
+            try:
+                right.setdefault(parts[0], []).append((f"{name} s={s!r}", fn()))
+            except (ValueError, TypeError):
+                pass
+    everything = [x for v in right.values() for x in v]
+    mods = (("with_fragment('x')", lambda u: u.with_fragment("x")), ("with_fragment(None)", lambda u: u.with_fragment(None)),
+            ("with_query('k=v')", lambda u: u.with_query("k=v")), ("with_path('/p')", lambda u: u.with_path("/p")),
+            ("with_scheme('https')", lambda u: u.with_scheme("https")), ("with_host('g')", lambda u: u.with_host("g")),
+            ("with_port(81)", lambda u: u.with_port(81)), ("with_user('w')", lambda u: u.with_user("w")),
+            ("/ 'file'", lambda u: u / "file"), ("joinpath('d', 'file')", lambda u: u.joinpath("d", "file")),
+            ("with_name('n')", lambda u: u.with_name("n")), ("with_suffix('.s')", lambda u: u.with_suffix(".s")),
+            ("parent", lambda u: u.parent), ("origin()", lambda u: u.origin()), ("relative()", lambda u: u.relative()),
+            ("join(URL('r?x#y'))", lambda u: u.join(URL("r?x#y"))), ("extend_query('e=1')", lambda u: u.extend_query("e=1")),
+            ("update_query('a=2')", lambda u: u.update_query("a=2")))
+    for idx, (s, parts) in enumerate(corpus):
+        if not out.mine():
+            continue
+        objs = _routes(URL, s, parts)
+        out.note(len({_norm5(o) for _, o in objs}) > 1, {"url": s, "routes": len(objs)})
+        for name, o in objs:
+            inp = {"url": s, "route": name}
+            _memo_coherent(o, inp, out, "as constructed")
+        # modifiers on a cold and on a fully observed source
+        for name, o in objs[:3]:
+            for warm in (False, True):
+                src = _cold(o)
+                before = _norm5(src), tuple(getattr(src, sl) for sl in _SLOTS)
+                if warm:
+                    _observe(src)
+                    _memo_coherent(src, {"url": s, "route": name}, out, "after reading every accessor")
+                    if (_norm5(src), tuple(getattr(src, sl) for sl in _SLOTS)) != before:
+                        out.fail("observation changed a stored part", {"url": s, "route": name}, _norm5(src), before[0])
+                for mn, fn in mods:
+                    try:
+                        w = fn(src)
+                    except (ValueError, TypeError):
+                        continue
+                    inp = {"url": s, "route": name, "source": "observed" if warm else "cold", "modifier": mn}
+                    _memo_coherent(w, inp, out, "result of a modifier")
+                    _observe(w)
+                    _memo_coherent(w, inp, out, "result of a modifier, after reading every accessor")
+        # comparisons: against every right-hand operand of the same scheme and a stride of the others
+        rs = right.get(parts[0], []) + everything[idx % 5::5]
+        for name, a in objs:
+            na = _norm5(a)
+            if a == s or a == na or a != a or not (a == a):
+                out.fail("== against a non-URL holds, or == is not reflexive", {"url": s, "route": name}, None, "False / True")
+            for rname, b in rs:
+                eq_want = na == _norm5(b)
+                eq, ne, lt, gt, le, ge = a == b, a != b, a < b, a > b, a <= b, a >= b
+                inp = {"a": f"{name} s={s!r}", "b": rname}
+                if eq != eq_want or ne == eq or (b == a) != eq:
+                    out.fail("== is not equality of (scheme, authority, path with ''=='/' under an authority, query, fragment)", inp, eq, eq_want)
+                elif eq and hash(a) != hash(b):
+                    out.fail("equal URLs with different hashes", inp, (hash(a), hash(b)), "equal hashes")
+                elif (lt, eq, gt).count(True) != 1:
+                    out.fail("not exactly one of a < b, a == b, a > b", inp, {"<": lt, "==": eq, ">": gt}, "exactly one")
+                elif le != (lt or eq) or ge != (gt or eq) or (b > a) != lt or (b < a) != gt:
+                    out.fail("<= / >= / mirrored operators disagree with <, ==, >", inp, {"<=": le, ">=": ge, "b>a": b > a, "b<a": b < a}, {"<": lt, "==": eq, ">": gt})
+        if out.full:
+            return
+
+
 CHECKS = {"modifiers": check_modifiers, "conformance_parse": check_conformance_parse, "conformance_path": check_conformance_path,
           "conformance_host": check_conformance_host, "build": check_build, "query_algebra": check_query_algebra, "join": check_join, "path_algebra": check_path_algebra, "decode": check_decode, "human_repr": check_human_repr,
-          "fixed_point": check_fixed_point}
+          "fixed_point": check_fixed_point, "coherence": check_coherence}
 
 
 def main(argv):
